@@ -1,5 +1,6 @@
 """C08 — glob, bracket and extglob patterns match exactly the strings bash matches."""
 import itertools
+import re
 import json
 import os
 import shutil
@@ -212,11 +213,12 @@ def shell_batch(which, header, body_lines):
     def one(chunk):
         script = header + "".join("printf '%d:'; %s" % (i, l) for i, l in chunk)
         r = lib.run_shell(which, script, mode="file", timeout=1800)
+        # outputs consist of 0/1/E/-/space only, so `<digits>:` markers are unambiguous even when a
+        # pattern makes the shell abandon the function before its closing newline
         d = {}
-        for ln in r["out"].split("\n"):
-            k, _, v = ln.partition(":")
-            if k.isdigit():
-                d[int(k)] = v
+        parts = re.split(r"(\d+):", r["out"])
+        for k, v in zip(parts[1::2], parts[2::2]):
+            d[int(k)] = v.strip("\n")
         return [d.get(i, "<lost>") for i, _ in chunk]
     return [x for c in lib.pmap(one, lib.chunked(list(enumerate(body_lines)), lib.NCPU)) for x in c]
 
@@ -332,6 +334,8 @@ def stage_E(ctx):
             rep2 = parse_report(m2)
             if rep and rep2 and not ext:
                 rep2 = dict(rep, spec=rep2["spec"], spec_cfg=rep["spec"])
+            if b == "":      # brush gave up on the whole function call (an error inside the loop): every answer is an error
+                b = " ".join(["E" * len(ss)] * 3)
             bf, of = b.split(" "), o.split(" ")
             if rep is None or len(bf) != 3 or len(of) != 3 or any(len(x) != len(ss) for x in bf + of):
                 if st["nv"] < 12:
